@@ -814,3 +814,14 @@ benign("C16","year-guard-split-in-two",[
 	}
 """),
 ])
+
+# ---- gauge id collision (fixed in /repo by merging)
+m("C12","newgauge-overwrites-existing","x/storage/keeper/gauges.go",
+  """	if old := store.Get(types.PaymentGaugeKey(id)); old != nil {
+		var existing types.PaymentGauge
+		k.cdc.MustUnmarshal(old, &existing)
+		pg.Coins = existing.Coins.Add(coins...)
+	}
+""","","C12/R2","gauge:id-collision","inverse of the gauge-merge fix")
+m("C04","newgauge-merge-records-double","x/storage/keeper/gauges.go",
+  "pg.Coins = existing.Coins.Add(coins...)","pg.Coins = existing.Coins.Add(coins...).Add(coins...)","C04/R2","gauge-constructor:records-argument")
